@@ -36,6 +36,10 @@
 (* f(x) (weights=None) is by definition the weighted one with all weights  *)
 (* equal to 1.                                                             *)
 (*                                                                         *)
+(* Stats.tla EXTENDS this module (standardised moments, tol= forms, a       *)
+(* second trimming catalogue, normalisation cases); StatsDist.tla states   *)
+(* the distances between SETS of points.                                   *)
+(*                                                                         *)
 (* Every reachable state is emitted once (INVARIANT Emit): initial states  *)
 (* with every definition evaluated on them (Obs) -- the harness compares   *)
 (* the real functions with these and checks each single-call               *)
@@ -173,25 +177,29 @@ Mad(s, w) == LET m == Median(s, w)                          \* median absolute d
 (* trimming catalogue: <<lo, hi>> percent cut from the lower / upper tail (k = <<lo,hi>>)   *)
 Ks == << <<0, 0>>, <<25, 25>>, <<25, 0>>, <<10, 40>> >>
 (* interpolated trimmed weights: the part of each point's weight inside [lo*W, (1-hi)*W]    *)
-TrimW(ord, cum, k) ==
+(* general form: klo / khi percent (integers) cut from the lower / upper tail; TrimW(.., k) is entry k of Ks   *)
+TrimWq(ord, cum, klo, khi) ==
   LET n == Len(ord)
       W == cum[n]
-      lo == QMul(Q(Ks[k][1], 100), W)
-      hi == QMul(Q(100 - Ks[k][2], 100), W)
+      lo == QMul(Q(klo, 100), W)
+      hi == QMul(Q(100 - khi, 100), W)
       tw(p) == LET a == IF p = 1 THEN Zero ELSE cum[p - 1]
                    b == cum[p]
                    d == QSub(QMinOf(b, hi), QMaxOf(a, lo))
                IN IF QLt(d, Zero) THEN Zero ELSE d
       rank == Rank(ord)
   IN TLCEval([i \in 1..n |-> tw(rank[i])])
+TrimW(ord, cum, k) == TrimWq(ord, cum, Ks[k][1], Ks[k][2])
 TMean(s, w, k) == LET ord == Ord(s) IN Mean(s, TrimW(ord, CumSeq(w, ord, Len(s)), k))
 TVar(s, w, k) == LET ord == Ord(s) IN Variance(s, TrimW(ord, CumSeq(w, ord, Len(s)), k))
 (* winsorised weights: the trimmed mass is moved onto the boundary points instead           *)
-WinsW(w, ord, cum, k) ==
+(* (general form WinsWq: klo / khi percent; defined when the two quantile positions do not cross, which   *)
+(* is the case whenever klo + khi < 100)                                                                  *)
+WinsWq(w, ord, cum, klo, khi) ==
   LET n == Len(ord)
       W == cum[n]
-      lo == QMul(Q(Ks[k][1], 100), W)
-      hi == QMul(Q(Ks[k][2], 100), W)
+      lo == QMul(Q(klo, 100), W)
+      hi == QMul(Q(khi, 100), W)
       below(p) == IF p = 1 THEN Zero ELSE cum[p - 1]
       plo == Min({p \in 1..n : QLt(lo, cum[p])})                  \* position of the lo-quantile
       phi == Max({p \in 1..n : QLt(hi, QSub(W, below(p)))})       \* position of the (1-hi)-quantile
@@ -202,6 +210,7 @@ WinsW(w, ord, cum, k) ==
                ELSE w[ord[p]]
       rank == Rank(ord)
   IN TLCEval([i \in 1..n |-> ww(rank[i])])
+WinsW(w, ord, cum, k) == WinsWq(w, ord, cum, Ks[k][1], Ks[k][2])
 WinsMean(s, w, k) == LET ord == Ord(s) IN Mean(s, WinsW(w, ord, CumSeq(w, ord, Len(s)), k))
 
 -----------------------------------------------------------------------------
